@@ -353,7 +353,8 @@ class ProgramGen:
     def gen_nested(self, st: dict) -> None:
         d, p = self.d, self.prof
         # reuse an existing sub-DAG or generate a new one
-        cands = [n for n in self.order if n != "main" and (n not in st["used_inner"] or d.bool(p["p_same_inner_twice"]))]
+        cands = [n for n in self.order if n != "main" and not self.dags[n].get("no_nest")
+                 and (n not in st["used_inner"] or d.bool(p["p_same_inner_twice"]))]
         if cands and d.bool(0.35):
             inner = d.pick(cands)
         else:
@@ -413,6 +414,7 @@ class ProgramGen:
         """`_tK = inner(args)` bound as a whole (no unpacking) and returned as it is."""
         d, p = self.d, self.prof
         cands = [n for n in self.order if n != "main" and n not in st["used_inner"] and not self.dags[n].get("has_debug")
+                 and not self.dags[n].get("no_nest")
                  and self.dags[n]["ret"]["shape"] in ("tuple", "list", "dict", "single")]
         inner = d.pick(cands) if cands and d.bool(0.5) else self.gen_dag(st["depth"] + 1)
         idag = self.dags[inner]
@@ -534,6 +536,79 @@ def gen_program(d: Draw, prof: Dict[str, Any]) -> dict:
     g = ProgramGen(d, prof)
     spec = g.generate()
     return spec
+
+
+def _stmt_exprs(s: dict) -> List[list]:
+    if s["k"] == "call":
+        return list(s["args"]) + [e for _, e in s["kwargs"]] + ([s["flag"]] if s["flag"] is not None else [])
+    if s["k"] == "op":
+        return [s["a"], s["b"]]
+    if s["k"] == "uop":
+        return [s["a"]]
+    if s["k"] == "logic":
+        return list(s["args"])
+    raise ValueError("nested statement")
+
+
+def derive_composed(spec_dags: Dict[str, dict], funcs: Dict[str, dict], base: str, ins: List[int], outs: List[int],
+                    name: str) -> Optional[dict]:
+    """The DAG `base.compose(name, inputs=ins, outputs=outs)` written out in the program language (so that the reference
+    interpreter, the graph model and the generator can treat it like any other DAG - in particular nest it).  `ins` / `outs`
+    are statement indices of a flat base DAG.  None when the composition would be refused (a required parameter is needed)."""
+    import copy
+    bd = spec_dags[base]
+    by_out = {o: i for i, s_ in enumerate(bd["stmts"]) for o in s_["out"]}
+    pidx = {x[0]: j for j, x in enumerate(bd["params"])}
+    need: set = set()
+    stack = [o for o in outs if o not in ins]
+    while stack:
+        i = stack.pop()
+        if i in need or i in ins:
+            continue
+        need.add(i)
+        for e in _stmt_exprs(bd["stmts"][i]):
+            if e[0] != "v":
+                continue
+            if e[1] in by_out:
+                stack.append(by_out[e[1]])
+            elif not bd["params"][pidx[e[1]]][1]:
+                return None
+
+    def sub(e: list) -> list:
+        if e[0] != "v":
+            return e
+        if e[1] in by_out and by_out[e[1]] in ins:
+            return ["v", f"i{ins.index(by_out[e[1]])}", list(e[2])]
+        if e[1] in pidx:
+            return ["c", bd["params"][pidx[e[1]]][2]]
+        return e
+
+    stmts = []
+    keep = {}
+    for i in sorted(need):
+        s_ = copy.deepcopy(bd["stmts"][i])
+        if s_["k"] == "call":
+            s_["args"] = [sub(e) for e in s_["args"]]
+            s_["kwargs"] = [[k, sub(e)] for k, e in s_["kwargs"]]
+            s_["flag"] = sub(s_["flag"]) if s_["flag"] is not None else None
+        elif s_["k"] == "op":
+            s_["a"], s_["b"] = sub(s_["a"]), sub(s_["b"])
+        elif s_["k"] == "uop":
+            s_["a"] = sub(s_["a"])
+        else:
+            s_["args"] = [sub(e) for e in s_["args"]]
+        keep[i] = len(stmts)
+        stmts.append(s_)
+    items, types = [], []
+    for o in outs:
+        so = bd["stmts"][o]
+        f = funcs[so["fn"]]
+        items.append(["v", so["out"][0], []] if o not in ins else ["v", f"i{ins.index(o)}", []])
+        types.append((f["ret"], so["flag"] is not None or f["ret"] == "none"))
+    return dict(params=[[f"i{j}", False, None, "int"] for j in range(len(ins))], stmts=stmts,
+                ret={"shape": "tuple", "items": items, "keys": []}, ret_types=types, mc=1, is_async=bd["is_async"],
+                flaggable=False, has_flag=any(s_.get("flag") is not None for s_ in stmts), has_setup=False, has_debug=False,
+                inner=[], p6=False, derived={"from": base, "inputs": list(ins), "outputs": list(outs), "keep": keep})
 
 
 # ---------------------------------------------------------------------- rendering
